@@ -43,6 +43,13 @@ func C01(e *Env) {
 	c14Groups(e)
 	c14Guards(e)
 	c14Sanitise(e, "R14.3")
+	sharedWriteRules(e)
+	r.Rule("R10.2", "the file on disk is exactly the generated source: one os.WriteFile (create, truncate, write) after a successful build (shared with C10): a stale tail of a longer previous file does not parse", 3)
+	r.Rule("R10.1", "the written path is the -o path (shared with C10)", 1)
+	mergeLiteralRule(e, "mergeMeta", "Meta")
+	mergeLiteralRule(e, "Merge", "Input")
+	r.Rule("R09.1", "the alias table and the other meta attributes of earlier files survive the multi-file merge (shared with C09): a lost alias leaves an import path that does not exist", 10)
+	r.Rule("R09.1c", "behaviour classes of the merge combinators (shared with C09)", 3)
 	r.Rule("R14.1", "alias substitution replaces the whole first segment once (shared with C14): otherwise the import path of the generated file names a package that does not exist", 4)
 	r.Rule("R14.8", "every capture group of a type/constructor/value reference reaches the compiled expression on every path (shared with C14)", 5)
 	r.Rule("R14.9", "the current package never reaches the alias table (shared with C14)", 5)
